@@ -129,7 +129,7 @@ def inFold (lhs : Expr) : Option Expr → List RangeItem → Option Expr
 
 /-- `ExprInModel(lhs, rl)` as an expression node -/
 def mkIn (lhs : Expr) (rl : List RangeItem) : Expr :=
-  .reset ((inFold lhs none rl).getD (.lit 1 false 1))
+  .reset ((inFold lhs none rl).getD (.lit 0 false 1))      -- nothing is in an empty range list
 
 /-! ### constraint statements -/
 
